@@ -825,10 +825,25 @@ def rule_queue_effects(ctx, rid, r, rid_seed=None, rid_unbounded=None):
     def value_of(x):
         return x.attrs.get("value", x) if isinstance(x, Obj) and x.cls is not None and "value" in x.attrs and "key" in x.attrs else x
 
+    # only classes that are actually constructed matter (a shared base class of the queue kinds is not a queue kind)
+    constructed = set()
+    deque_seeded = set()  # classes whose constructor is handed a deque at some construction site
+    for f_ in m.funcs.values():
+        for c_ in f_.own_calls():
+            for o in m.callee_origins(f_, c_):
+                if o[0] == "class":
+                    constructed.add(o[1])
+                    if c_.args and isinstance(c_.args[0], ast.Call) and norm(c_.args[0].func).split(".")[-1] == "deque":
+                        deque_seeded.add(o[1])
     for cls in r.queue_classes:
+        if cls not in constructed and any(cls in c2.repo_mro() for c2 in r.queue_classes if c2 is not cls):
+            continue
+        meth = {}
         for need_m in ("_put", "_get", "_qsize", "__init__"):
-            if need_m not in cls.methods:
-                raise AnalysisError(f"{cls.qualname}: missing {need_m}")
+            got = cls.lookup(need_m)
+            meth[need_m] = got if isinstance(got, Func) else None
+        if meth["__init__"] is None:
+            raise AnalysisError(f"{cls.qualname}: missing __init__")
         bad_put, bad_get, bad_size, bad_seed = [], [], [], []
         for size in range(0, 4):
             tokens = [f"t{i}" for i in range(size)]
@@ -840,16 +855,32 @@ def rule_queue_effects(ctx, rid, r, rid_seed=None, rid_unbounded=None):
                        "heapq.heappop": lambda lst: lst.pop(0)}
                 it = Interp(m, ext=ext)
                 q = Obj(cls, {"unfinished_tasks": 0})
-                init = cls.methods["__init__"]
-                args = [list(tokens)] + ([Stub("priority", lambda node: 0)] if len(init.pos_params) > 2 else [])
+                init = meth["__init__"]
+                import collections as _c
+                first = _c.deque(tokens) if cls in deque_seeded else list(tokens)
+                args = [first] + ([Stub("priority", lambda node: 0)] if len(init.pos_params) > 2 else [])
                 it.call_func(init, None, args, {}, bound_self=q)
+
+                # methods the class does not override behave as in queue.Queue (append / popleft / len on self.queue)
+                def run_m(name, *a):
+                    if meth[name] is not None:
+                        return it.call_func(meth[name], None, list(a), {}, bound_self=q)
+                    cont = q.attrs["queue"]
+                    try:
+                        if name == "_put":
+                            return cont.append(a[0])
+                        if name == "_get":
+                            return cont.popleft()
+                        return len(cont)
+                    except AttributeError as ex:
+                        raise AbsRaise(f"AttributeError: {ex}")
                 seeded = [value_of(x) for x in q.attrs.get("queue", [])]
                 ut = q.attrs.get("unfinished_tasks")
-                size_before = it.call_func(cls.methods["_qsize"], None, [], {}, bound_self=q)
-                it.call_func(cls.methods["_put"], None, ["NEW"], {}, bound_self=q)
+                size_before = run_m("_qsize")
+                run_m("_put", "NEW")
                 after_put = [value_of(x) for x in q.attrs["queue"]]
-                size_after = it.call_func(cls.methods["_qsize"], None, [], {}, bound_self=q)
-                got = it.call_func(cls.methods["_get"], None, [], {}, bound_self=q)
+                size_after = run_m("_qsize")
+                got = run_m("_get")
                 after_get = [value_of(x) for x in q.attrs["queue"]]
                 return seeded, ut, size_before, after_put, size_after, got, after_get
             try:
@@ -866,25 +897,35 @@ def rule_queue_effects(ctx, rid, r, rid_seed=None, rid_unbounded=None):
                     bad_size.append((tokens, sb, sa))
                 if sorted(ag + [got]) != sorted(ap) or len(ag) != len(ap) - 1:
                     bad_get.append((ap, got, ag))
-        f = cls.methods["_put"]
+        f = meth["_put"] or meth["__init__"]
         ctx.ob(rid, f"{f.short}/adds-item-once", not bad_put, loc(f),
                "net effect of _put on every evaluated queue state and random outcome: + exactly the item" if not bad_put else
                f"_put loses or duplicates nodes: queue {bad_put[0][0]} + NEW -> {bad_put[0][1]}")
-        f = cls.methods["_get"]
+        f = meth["_get"] or meth["__init__"]
         ctx.ob(rid, f"{f.short}/removes-what-it-returns", not bad_get, loc(f),
                "_get removes exactly the element it returns" if not bad_get else
                f"_get does not remove exactly what it returns: {bad_get[0][0]} -> returned {bad_get[0][1]!r}, left {bad_get[0][2]}")
-        f = cls.methods["_qsize"]
+        f = meth["_qsize"] or meth["__init__"]
         ctx.ob(rid, f"{f.short}/size", not bad_size, loc(f), "_qsize is the number of stored items" if not bad_size else
                f"_qsize disagrees with the container: {bad_size[0]}")
-        f = cls.methods["__init__"]
+        f = meth["__init__"]
         ctx.ob(rid_seed, f"{f.short}/seeded-unfinished-tasks", not bad_seed, loc(f),
                "the constructor stores every initial item once and seeds unfinished_tasks with their number" if not bad_seed else
                f"constructor seeding is wrong: items {bad_seed[0][0]} -> stored {bad_seed[0][1]}, unfinished_tasks={bad_seed[0][2]} "
                f"(join() returns before the seeded nodes ran, or task_done() raises)")
         for n in f.own_nodes():
             if isinstance(n, ast.Call) and isinstance(n.func, ast.Attribute) and n.func.attr == "__init__":
+                # only a call that reaches queue.Queue.__init__ itself sets maxsize; with a repo base class in between the
+                # arguments are that class's own (its constructor is examined in turn)
+                owner = f.cls
+                mro = owner.repo_mro() if owner is not None else []
+                nxt = mro[mro.index(owner) + 1:] if owner in mro else []
+                if any("__init__" in c2.methods for c2 in nxt):
+                    continue
                 okb = not n.args and not n.keywords
+                if not okb:
+                    mv = const(arg(n, 0, "maxsize"))
+                    okb = isinstance(mv, int) and mv <= 0 and len(n.args) + len(n.keywords) == 1
                 ctx.ob(rid_unbounded, f"{f.short}/unbounded", okb, loc(f, n), "super().__init__() is unbounded" if okb else
                        "bounded queue: put() can block", norm(n))
     ctx.notes["queue_effect_cases_evaluated"] = n_eval
